@@ -8,6 +8,7 @@ import FendModel.Proofs.BigUintSub
 import FendModel.Proofs.BigUintPow
 import FendModel.Proofs.BigRatMulDiv
 import FendModel.Proofs.BigRatField
+import FendModel.Proofs.BigRatPow
 import FendModel.Model.Pinned
 
 namespace Fend.C01
@@ -89,6 +90,37 @@ theorem field_tree_exact (e : BigRat.QExpr) (hl : BigRat.LeavesOK e) :
     (∀ q, BigRat.denote e = some q → ∃ r, BigRat.evalQ e = .ok r ∧ BigRat.valQ r = q ∧ BigRat.WFQ r ∧ val r.den ≠ 0) ∧
     (BigRat.denote e = none → BigRat.evalQ e = .error .divideByZero) :=
   BigRat.evalQ_spec e hl
+
+/-- `simplify` (division by the gcd) keeps value, sign and well-formedness -/
+theorem rat_simplify_exact (x : BigRat) (wx : BigRat.WFQ x) (dx : val x.den ≠ 0) :
+    ∃ r, BigRat.simplify x = .ok r ∧ BigRat.valQ r = BigRat.valQ x ∧ BigRat.WFQ r ∧ val r.den ≠ 0 ∧ r.neg = x.neg ∧
+      val r.num = val x.num / Nat.gcd (val x.num) (val x.den) ∧ val r.den = val x.den / Nat.gcd (val x.num) (val x.den) :=
+  BigRat.simplify_spec x wx dx
+
+/-- integer powers of rationals, exponent `+n` written as ANY fraction denoting `n` (`6/3`, `n/1`, ...): the exact power,
+flagged exact; errors exactly 0^0 and an exponent beyond the machine word -/
+theorem rat_pow_nonneg_int (fuel : Nat) (x e : BigRat) (wx : BigRat.WFQ x) (dx : val x.den ≠ 0) (we : BigRat.WFQ e)
+    (he : BigRat.IntExp e) (hneg : e.neg = false) :
+    (val x.num = 0 ∧ BigRat.expN e = 0 → BigRat.pow (fuel + 1) x e = .error .zeroPowZero) ∧
+    (¬ (val x.num = 0 ∧ BigRat.expN e = 0) → B ≤ BigRat.expN e → BigRat.pow (fuel + 1) x e = .error .exponentTooLarge) ∧
+    (¬ (val x.num = 0 ∧ BigRat.expN e = 0) → BigRat.expN e < B →
+      ∃ r, BigRat.pow (fuel + 1) x e = .ok (r, true) ∧ BigRat.valQ r = BigRat.valQ x ^ BigRat.expN e ∧ BigRat.WFQ r ∧
+        val r.den ≠ 0 ∧ (val r.num = 0 ↔ val x.num = 0)) :=
+  BigRat.pow_nonneg_int fuel x e wx dx we he hneg
+
+/-- negative integer exponents: the reciprocal of the power; 0^(-n) is division by zero -/
+theorem rat_pow_neg_int (fuel : Nat) (x e : BigRat) (wx : BigRat.WFQ x) (dx : val x.den ≠ 0) (we : BigRat.WFQ e)
+    (he : BigRat.IntExp e) (hneg : e.neg = true) :
+    (val x.num = 0 ∧ BigRat.expN e = 0 → BigRat.pow (fuel + 2) x e = .error .zeroPowZero) ∧
+    (¬ (val x.num = 0 ∧ BigRat.expN e = 0) → B ≤ BigRat.expN e → BigRat.pow (fuel + 2) x e = .error .exponentTooLarge) ∧
+    (val x.num = 0 → BigRat.expN e ≠ 0 → BigRat.expN e < B → BigRat.pow (fuel + 2) x e = .error .divideByZero) ∧
+    (val x.num ≠ 0 → BigRat.expN e < B →
+      ∃ r, BigRat.pow (fuel + 2) x e = .ok (r, true) ∧ BigRat.valQ r = (BigRat.valQ x ^ BigRat.expN e)⁻¹) :=
+  BigRat.pow_neg_int fuel x e wx dx we he hneg
+
+-- non-vacuity: (-2/3)^(6/3) meets the hypotheses (unreduced integer exponent, negative base); `powTop` uses fuel 4 = 2 + 2
+example : BigRat.WFQ ⟨true, .small 2, .small 3⟩ ∧ BigRat.WFQ ⟨false, .small 6, .small 3⟩ ∧ BigRat.IntExp ⟨false, .small 6, .small 3⟩ := by
+  refine ⟨⟨?_, ?_⟩, ⟨?_, ?_⟩, ⟨?_, ?_⟩⟩ <;> simp [WF, val, B]
 
 /-- Defect D20 (repaired by a `fix:` commit): on the pinned tree `add` was NOT addition.
 Witness: `1 + (2^128 - 1)` gave `2^64`. -/
